@@ -449,7 +449,7 @@ def generate(seed, kind, mode, size=3, layout=True, pad=False):
 
 EXIT_KINDS = ("fall", "retc", "retv", "break", "continue", "raise", "swallow")
 LAST_STMTS = ("plain", "tryexcept", "tryfinally", "ifreturn", "nestedwith", "loop", "trypass", "ifelse", "match")
-SURROUND = ("plain", "for", "while", "try", "finally", "except", "forelse", "match")
+SURROUND = ("plain", "for", "while", "try", "finally", "except", "forelse", "match", "withfor", "withwhile")
 
 
 def template(exit_kind, last, nesting, nitems, is_async, surround, kind, mode):
@@ -489,7 +489,7 @@ def template(exit_kind, last, nesting, nitems, is_async, surround, kind, mode):
     ind = 1
     sus(ind)
     in_loop = False
-    if exit_kind in ("break", "continue") and surround not in ("for", "while", "forelse"):
+    if exit_kind in ("break", "continue") and surround not in ("for", "while", "forelse", "withfor", "withwhile"):
         emit(ind, "for _j in R():")
         ind += 1
         in_loop = True
@@ -525,6 +525,19 @@ def template(exit_kind, last, nesting, nitems, is_async, surround, kind, mode):
         emit(ind, "match M():")
         emit(ind + 1, "case 0 | 1:")
         ind += 2
+    elif surround in ("withfor", "withwhile"):
+        # a loop *between* an enclosing with and the with statements under test: what lies just before the
+        # inner exit sequence may be the tail of a jump out of the inner block, still inside the outer one
+        k = nk()
+        emit(ind, "%s %s(%d) as w%d:" % ("async with" if is_async else "with", "A" if is_async else "S", k, k))
+        ind += 1
+        if surround == "withfor":
+            emit(ind, "for _i in R():")
+            ind += 1
+        else:
+            emit(ind, "while True:")
+            ind += 1
+            emit(ind, "if T(): break")
     base_ind = ind
     kw = "async with" if is_async else "with"
     ctor = "A" if is_async else "S"
